@@ -44,7 +44,7 @@ RAY_OFFSETS = [
 ]
 LAYOUTS = [OFFSETS, RAY_OFFSETS]
 IDS = ["A", "B", "C", "D"]
-GEOID = {"A": 40.0, "B": 41.5, "C": 39.25, "D": 42.75}
+GEOID = {"A": 40.0, "B": 41.5, "C": 0.0, "D": 42.75}     # C: an undulation that is given and is exactly zero (given != non-zero)
 
 STATUS = ("fixed", "free", "constr")
 STAT_CODE = {"fixed": "x", "free": "f", "constr": "c"}
